@@ -10,6 +10,7 @@ import (
 	"encoding/hex"
 	"encoding/json"
 	"fmt"
+	"github.com/Syuparn/pangaea/object"
 	"os"
 	"os/exec"
 	"path/filepath"
@@ -26,6 +27,13 @@ func init() {
 }
 
 const coreFuel = "600"
+
+// coreRun evaluates src in a new interpreter with a small evaluation budget (generated programs are short; a
+// runaway recursion is cut off early and the case discarded)
+func coreRun(src string) Outcome {
+	it := NewInterp()
+	return it.RunIn(object.NewEnclosedEnv(it.base), src, "", 30000)
+}
 
 func featTags(f map[string]bool) []string {
 	out := []string{}
@@ -47,8 +55,10 @@ func coreCase(c *Ctx, src string, tags []string, nt bool, oracle string) (Outcom
 		c.Em.Emit(Rec{Src: src, Impl: "unsupported", Skip: "outside-core:" + unsupported, Tags: tags})
 		return Outcome{}, false
 	}
-	it := NewInterp()
-	o := it.Run(src, "")
+	if tf := os.Getenv("VERIF_TRACE"); tf != "" {
+		os.WriteFile(tf, []byte(src), 0o644)
+	}
+	o := coreRun(src)
 	rec := Rec{Case: "CORE - " + coreFuel + " " + toks, Impl: coreOutcome(o), Src: src, NT: nt, Tags: append(tags, "outcome-"+o.Kind), Oracle: oracle}
 	if o.Kind == "err" {
 		rec.Tags = append(rec.Tags, "err-"+o.ErrKind)
@@ -99,6 +109,7 @@ var coreInjections = []struct{ text, kind, msg string }{
 	{"(nope%d)", "NameErr", "name `nope%d` is not defined"},
 	{"(%d // 0)", "ZeroDivisionErr", "cannot be divided by 0"},
 	{"(%d.nope)", "NoPropErr", "property `nope` is not defined."},
+	{"(StopIterErr.new(\"stop%d\"))", "StopIterErr", "stop%d"},
 }
 
 // orderProbes: model-free expectations taken from the property text: every t(k) is evaluated exactly once, in the order
@@ -134,7 +145,7 @@ func genCore(c *Ctx, mode string) {
 			}
 			src := "t := {|v| v.p; v}\nf := {|a, b, c, d, kx: 0, ky: 0, kz: 0| 0}\n" + pr.src + "\n"
 			for k := 0; k < 4; k++ { // several runs: Go map iteration starts at a random offset
-				o := NewInterp().Run(src, "")
+				o := coreRun(src)
 				got := strings.Join(strings.Fields(o.Stdout), " ")
 				rec := Rec{Src: src, Impl: got, NT: k == 0, Tags: []string{"order-probe"}}
 				if got != pr.want || o.Kind != "val" {
@@ -144,9 +155,12 @@ func genCore(c *Ctx, mode string) {
 			}
 		}
 	}
+	if mode == "C08" {
+		layoutProbes(c)
+	}
 	if mode == "C07" && c.Shard == 0 {
 		for _, src := range []string{"g := {|x, y| [x, y]}\n1.^g(ValueErr.new(\"dropped\")).p\n\"after\".p\n"} {
-			o := NewInterp().Run(src, "")
+			o := coreRun(src)
 			rec := Rec{Src: src, Impl: coreOutcome(o), NT: true, Tags: []string{"probe"}}
 			if !(o.Kind == "err" && o.ErrMsg == "dropped") {
 				rec.Oracle = "a raise in the argument list of a variable call is dropped: " + coreOutcome(o)
@@ -180,7 +194,7 @@ func genCore(c *Ctx, mode string) {
 			// reproducibility: the same program again in this process (new interpreter, new map seeds) and, for a sample, in a new process
 			first := coreOutcome(o)
 			for k := 0; k < 2; k++ {
-				again := coreOutcome(NewInterp().Run(src, ""))
+				again := coreOutcome(coreRun(src))
 				if again != first {
 					c.Em.Emit(Rec{Src: src, Impl: again, NT: true, Tags: []string{"rerun"}, Oracle: "a repeated run differs: first " + first + " then " + again})
 				} else {
@@ -230,7 +244,7 @@ func genCore(c *Ctx, mode string) {
 					c.Em.Emit(Rec{Src: isrc, Impl: "syntax", Skip: "generator-syntax-error", Tags: itags})
 					continue
 				}
-				o := NewInterp().Run(isrc, "")
+				o := coreRun(isrc)
 				rec := Rec{Case: "CORE - " + coreFuel + " " + toks, Impl: coreOutcome(o), Src: isrc, NT: true, Tags: append(itags, "outcome-"+o.Kind)}
 				if o.Kind == "fuel" {
 					rec.Skip = "fuel"
@@ -287,4 +301,70 @@ func failStopOracle(base, inj Outcome, msg string, kind string) string {
 		}
 	}
 	return ""
+}
+
+// layoutProbes: programs over objects and maps with several pairs (some values raise in their `==` / `S` hooks, some
+// are unequal, some nested) observed through everything that walks the pairs: equality, printing, keys/values/items,
+// ** unpacking into literals and calls, iteration. Model-free oracle: ten runs give the same output, value and error
+// (each Go map range starts at a random offset, so an order-dependent result shows up within a few runs).
+func layoutProbes(c *Ctx) {
+	vals := []string{"1", "2", "\"s\"", "picky", "[1, 2]", "{z: 1}", "nil", "sticky", "3"}
+	keys := []string{"a", "b", "c", "d", "e", "f", "g", "h"}
+	ops := []string{
+		"(o1 == o2).p", "(o1 != o2).p", "(m1 == m2).p", "o1.S.p", "o1.repr.p", "o1.keys.p", "o1.values.len.p", "o1.items.len.p", "m1.keys.p", "m1.S.p",
+		"{**o1, **o2}.keys.p", "%{**m1, **m2}.keys.p", "fk(**o1).p", "fk(**o1, **o2).p", "o1@{|k, v| k}.p", "m1@{|k, v| k}.p", "([o1] == [o2]).p",
+		"(%{1: o1} == %{1: o2}).p", "o1.bear({zz: 1}).keys.p", "o1.has?('a).p", "[o1, o2, o1].uniq.len.p", "o1.A.len.p", "(o1 == o1).p", "m1.items.p", "o2.values.S.p",
+	}
+	n := 60
+	if c.Thorough() {
+		n = 600
+	}
+	for i := 0; i < n; i++ {
+		mk := func() (string, string) {
+			k := 2 + c.Rng.Intn(6)
+			op, mp := []string{}, []string{}
+			for j := 0; j < k; j++ {
+				v := vals[c.Rng.Intn(len(vals))]
+				op = append(op, keys[j]+": "+v)
+				mp = append(mp, "'"+keys[j]+": "+v)
+			}
+			return "{" + strings.Join(op, ", ") + "}", "%{" + strings.Join(mp, ", ") + "}"
+		}
+		o1, m1 := mk()
+		o2, m2 := mk()
+		if c.Rng.Intn(3) == 0 {
+			o2, m2 = o1, m1
+		}
+		body := []string{}
+		for j := 0; j < 3; j++ {
+			body = append(body, "1.try.fmap {|w| "+strings.TrimSuffix(ops[c.Rng.Intn(len(ops))], ".p")+"}.A.p")
+		}
+		src := "picky := {'==: m{|o| raise ValueErr.new(\"picky\")}, S: m{\"P\"}}\nsticky := {'==: m{|o| false}, S: m{raise TypeErr.new(\"sticky\")}}\n" +
+			"fk := {|a: 0, b: 0, c: 0| [a, b, c, \\_.keys]}\n" +
+			"o1 := " + o1 + "\no2 := " + o2 + "\nm1 := " + m1 + "\nm2 := " + m2 + "\n" + strings.Join(body, "\n") + "\n"
+		if !c.Mine() {
+			continue
+		}
+		first := ""
+		var rec Rec
+		for k := 0; k < 10; k++ {
+			o := coreRun(src)
+			got := o.Kind + "|" + o.ErrKind + "|" + o.ErrMsg + "|" + o.Stdout
+			if k == 0 {
+				first = got
+				rec = Rec{Src: src, Impl: got, NT: true, Tags: []string{"layout-probe", "outcome-" + o.Kind}}
+				if o.Kind == "syntax" {
+					rec.Skip = "generator-syntax-error"
+					break
+				}
+			} else if got != first {
+				rec.Oracle = fmt.Sprintf("run %d differs from the first run: %q vs %q", k+1, got, first)
+				break
+			}
+		}
+		if len(rec.Impl) > 2000 {
+			rec.Impl = rec.Impl[:2000]
+		}
+		c.Em.Emit(rec)
+	}
 }
